@@ -514,7 +514,16 @@ class Interp:
         if isinstance(e, ast.Yield):
             return self.do_yield(self.ev(e.value, env, mod, depth) if e.value is not None else None)
         if isinstance(e, ast.YieldFrom):
-            for x in self.iterate(self.ev(e.value, env, mod, depth), e.value):
+            sub = self.ev(e.value, env, mod, depth)
+            if isinstance(sub, Gen):
+                k = 0
+                while True:  # re-yield the sub-generator's values; the expression evaluates to its return value
+                    kind, v = self.run_gen_until(sub, k)
+                    if kind == "stop":
+                        return v
+                    self.do_yield(v)
+                    k += 1
+            for x in self.iterate(sub, e.value):
                 self.do_yield(x)
             return None
         if isinstance(e, ast.Attribute):
@@ -653,7 +662,7 @@ class Interp:
             return set(out)
         if isinstance(e, ast.DictComp):
             return dict(out)
-        return out  # generator expression: materialised (pure subset)
+        return iter(out)  # generator expression: materialised eagerly (pure subset), handed out as a one-shot iterator so next() / any() work
 
     def binop(self, op, l, r, node):
         if isinstance(l, (Rec, Func, ClassRef)) or isinstance(r, (Rec, Func, ClassRef)):
